@@ -35,10 +35,14 @@
 uint64_t g_v;     /* ghost variable index at which coefficient-wise facts are instantiated: arbitrary, never assigned */
 #define GET(e, x) fm_get(MAPP(*(e)), x)
 #define COEFWISE_NEG(r, a) (FM_SIZE(MAPP(*(r))) == FM_SIZE(MAPP(*(a))) && fm_get(MAPP(*(r)), g_v) == -fm_get(MAPP(*(a)), g_v))
+/* the result of unary minus as a FUNCTION of the operand (so that the contract can stand for the call in the checks of
+ * linear_constraint_system): a new map object with its own term array, holding the operand's terms with negated coefficients */
+#define NEG_TERMS(r, a) (__CPROVER_is_fresh(MAPP(*(r)), sizeof(FM)) && __CPROVER_is_fresh(FM_START(MAPP(*(r))), 2 * NT * sizeof(PR)) && FM_CAP(MAPP(*(r))) == 2 * NT && fm_is_neg(MAPP(*(r)), MAPP(*(a))))
 #else
 #define g_v 0
 #define GET(e, x) ((i128)0)     /* coefficient-wise clauses say nothing in the abstract reading */
 #define COEFWISE_NEG(r, a) 1
+#define NEG_TERMS(r, a) 1
 #endif
 /* ===================== PART 0: callee contracts on the term container ===================== */
 /* ASSUMED (shared_ptr ownership plumbing, never enforced): copying a shared_ptr passes the same map on,
@@ -71,6 +75,7 @@ __CPROVER_ensures(__CPROVER_return_value == (LE_CONST(self) ? 1 : 0));
 void LEK(ngEv)(LE *ret, LE *self)
 __CPROVER_requires(FRESH(le_neg, ret, sizeof(LE)) && FRESH(le_neg, self, sizeof(LE)) && le_okz(self, 2 * ZB))
 __CPROVER_assigns(*ret)
+__CPROVER_ensures(SP(NEG_TERMS(ret, self)))     /* first: it makes the result's map a valid object when the contract stands for a call */
 __CPROVER_ensures(SP(le_okz(ret, 2 * ZB) && LE_CST(ret) == -LE_CST(self) && LE_CONST(ret) == LE_CONST(self)))
 __CPROVER_ensures(EP(!NEG_LEMMAS(self) || LE_E(ret) == -LE_E(self)))
 __CPROVER_ensures(SP(TOP(le_neg, COEFWISE_NEG(ret, self))));
@@ -433,6 +438,7 @@ void h_le_ctor_num_var(void){ IN(Z, n); INVAR(x); HG; LE r; LEN(C2ES1_N4crab8var
  * coefficient of x in the result is the sum of the coefficients of the variables renamed to x, the result is well
  * formed, and value(rename(e, rho)) under val = value(e) under val o rho */
 #if NT <= 2
+//@check id=le_rename_q fn=_ZNK4ikos17linear_expressionINS_8z_numberE2VNE6renameI2RMEES3_RKT_ tag=le_rename harness=h_le_rename props=C20 defs=LINCST_CONCRETE,NT=1 vary=SZ1:0-1 unwind=3 mem=6 cost=5 bounded="<=1 term" timeout=300 first_timeout=200
 //@check id=le_rename fn=_ZNK4ikos17linear_expressionINS_8z_numberE2VNE6renameI2RMEES3_RKT_ props=C20 tier=thorough defs=LINCST_CONCRETE,NT=2,NO_EVAL vary=SZ1:0-2 unwind=5 cost=9 mem=14 bounded="<=2 terms" timeout=900 first_timeout=600
 //@check id=le_rename_eval fn=_ZNK4ikos17linear_expressionINS_8z_numberE2VNE6renameI2RMEES3_RKT_ tag=le_rename harness=h_le_rename props=C20 tier=thorough defs=LINCST_CONCRETE,NT=1,ONLY_EVAL defs_thorough=LINCST_CONCRETE,NT=2,ONLY_EVAL unwind=3 unwind_thorough=5 vary_thorough=SZ1:0-1 bounded="<=1 term" bounded_thorough="<=1 term" timeout=900 first_timeout=600 timeout_thorough=3600 first_timeout_thorough=3000
 #define RHOREC(A, i) RECORD(unsigned char, A##_rh##i, RHO_HAS(FM_IDX(&A.m, i)) ? 1 : 0); RECORD(uint64_t, A##_r##i, RHO(FM_IDX(&A.m, i))); RECORD(i128, A##_rv##i, VAL(FM_RIDX(&A.m, i)))
@@ -450,7 +456,126 @@ unsigned char LEK(5equalERKS3_)(LE *self, LE *o)
 __CPROVER_requires(FRESH(le_equal, self, sizeof(LE)) && FRESH(le_equal, o, sizeof(LE)) && le_ok(self) && le_ok(o))
 __CPROVER_assigns()
 __CPROVER_ensures((__CPROVER_return_value != 0) == (LE_CST(self) == LE_CST(o) && fm_same(EMAP(self), EMAP(o))))
-__CPROVER_ensures(__CPROVER_return_value == 0 || GET(self, g_v) == GET(o, g_v))
-__CPROVER_ensures(__CPROVER_return_value == 0 || !(fm_range_lemmas(EMAP(self)) && fm_range_lemmas(EMAP(o))) || LE_E(self) == LE_E(o));
+__CPROVER_ensures(TOP(le_equal, __CPROVER_return_value == 0 || GET(self, g_v) == GET(o, g_v)))
+__CPROVER_ensures(TOP(le_equal, __CPROVER_return_value == 0 || !(fm_range_lemmas(EMAP(self)) && fm_range_lemmas(EMAP(o))) || LE_E(self) == LE_E(o)));
 void h_le_equal(void){ INLE(A); INLE(B); HG; unsigned char r = LEK(5equalERKS3_)(&A.e, &B.e); SATGUARD(r && FM_SIZE(&A.m) == NT && fm_range_lemmas(&A.m) && fm_range_lemmas(&B.m)); SATGUARD(!r && FM_SIZE(&A.m) == NT && FM_SIZE(&B.m) == NT); REACH; }
+#endif
+
+/* ===================== PART 3: linear_constraint_system ===================== */
+/* A system is the CONJUNCTION of its constraints.  CONCRETE reading, BOUNDED: at most NC constraints of at most NT terms
+ * each.  The real code of linear_constraint_system runs on the real std::vector accessors / std::any_of and on the
+ * reference models of units/lincst/sysmodel.c (hash containers searched with the REAL linear_expression_equal,
+ * vector::push_back); linear_expression::operator-(), equal, size, begin, the constructors etc. are the real code on the
+ * flat_map model of lemodel.c.  The valuation is the uninterpreted VAL of spec.h, so every postcondition below is "for
+ * every valuation". */
+#define SYSK(x) _ZNK4ikos24linear_constraint_systemINS_8z_numberE2VNE##x
+#define SYSN(x) _ZN4ikos24linear_constraint_systemINS_8z_numberE2VNE##x
+#ifdef LINCST_CONCRETE
+/* harness input: a system S_s with its constraint array S_c (one spare slot for operator+=) and, per constraint, its map
+ * object S_m<i> and term storage S_t<i> (NT terms: input maps are never inserted into).  These are SEPARATE objects and
+ * the number of constraints is fixed per run (vary=SYSN_FIX:0-NC; the union of the runs is "at most NC constraints"), so
+ * that the checker sees constant offsets. */
+#define NCAP (NC + 1)
+struct lcarr { LC a[NCAP]; };
+struct trarr { PR a[NT]; };
+#if NT >= 2
+#define SYSFIXV(S, i) FIXVAR(&S##_t##i.a[0].f0); FIXVAR(&S##_t##i.a[1].f0); RECORD(i128, S##_v##i##1, FM_VAL(&S##_m##i, 1))
+#else
+#define SYSFIXV(S, i) FIXVAR(&S##_t##i.a[0].f0)
+#endif
+#define SYSWIRE(S, i) IN(FM, S##_m##i); IN(struct trarr, S##_t##i); S##_c.a[i].f1.f0.f0.f0 = &S##_m##i; FM_START(&S##_m##i) = S##_t##i.a; FM_CAP(&S##_m##i) = NT; \
+  SYSFIXV(S, i); RECORD(i128, S##_v##i##0, FM_VAL(&S##_m##i, 0))
+#if NC >= 3
+#define SYSWIRE3(S) SYSWIRE(S, 2)
+#else
+#define SYSWIRE3(S)
+#endif
+#ifndef SYSN_FIX
+#define SYSN_FIX NC
+#endif
+#define INSYS(S, n) IN(SYS, S##_s); IN(struct lcarr, S##_c); const uint64_t n = (SYSN_FIX); static uint64_t wit_##n; wit_##n = n; SYSWIRE(S, 0); SYSWIRE(S, 1); SYSWIRE3(S); \
+  SYS_B(&S##_s) = S##_c.a; SYS_E(&S##_s) = S##_c.a + (SYSN_FIX); SYS_C(&S##_s) = S##_c.a + NCAP
+
+/* ---- operator+=(constraint): FUNCTIONAL contract (it stands for the calls in normalize): the constraint is appended
+ * (a copy sharing the term map) unless one of the constraints is syntactically equal to it; the other constraints, and
+ * the buffer when there is one, are kept.  SEMANTICS (enforced instance only; g_pre = the conjunction held before): the
+ * new system holds iff the old one and the added constraint hold. */
+unsigned char g_pre;
+#ifndef SYS_CAP
+#define SYS_CAP 4
+#endif
+#define SYS_ROOM(s) (SYS_B(s) == 0 ? SYS_E(s) == 0 : (SYS_E(s) != SYS_C(s) && __CPROVER_rw_ok(SYS_B(s), (SYS_N(s) + 1) * sizeof(LC))))
+#define OLD_B __CPROVER_old(SYS_B(self))
+#define OLD_N (__CPROVER_old(SYS_B(self)) == 0 ? (uint64_t)0 : (uint64_t)(__CPROVER_old(SYS_E(self)) - __CPROVER_old(SYS_B(self))))
+//@check id=sys_add fn=_ZN4ikos24linear_constraint_systemINS_8z_numberE2VNEpLERKNS_17linear_constraintIS1_S2_EE props=C20 defs=LINCST_CONCRETE,NT=1,NC=2 replace=_ZNK4ikos17linear_expressionINS_8z_numberE2VNE5equalERKS3_ vary=SYSN_FIX:0-2 unwind=4 cbmc=--unwindset,_ZSt9__find_ifIN9__gnu_cxx17__normal_iteratorIPN4ikos17linear_constraintINS2_8z_numberE2VNEESt6vectorIS6_SaIS6_EEEENS0_5__ops10_Iter_predIZNS2_24linear_constraint_systemIS4_S5_EpLERKS6_EUlSH_E_EEET_SK_SK_T0_St26random_access_iterator_tag.0:1 bounded="<=2 constraints of <=1 term" timeout=600 first_timeout=400
+SYS *SYSN(pLERKNS_17linear_constraintIS1_S2_EE)(SYS *self, LC *c)
+__CPROVER_requires(FRESH(sys_add, self, sizeof(SYS)) && FRESH(sys_add, c, sizeof(LC)) && sys_ok(self) && lc_ok(c) && SYS_ROOM(self))
+__CPROVER_requires(TOP(sys_add, g_pre == ((sys_range_lemmas(self) && sys_holds(self)) ? 1 : 0)))
+__CPROVER_assigns(*self; SYS_B(self) != 0: *SYS_E(self))
+__CPROVER_ensures(__CPROVER_return_value == self)
+__CPROVER_ensures(OLD_B != 0 ? (SYS_B(self) == OLD_B && SYS_C(self) == __CPROVER_old(SYS_C(self))) : (__CPROVER_is_fresh(SYS_B(self), SYS_CAP * sizeof(LC)) && SYS_C(self) == SYS_B(self) + SYS_CAP))
+__CPROVER_ensures(SYS_E(self) == SYS_B(self) + (OLD_N + (sys_find(self, OLD_N, c) ? 0 : 1)))
+__CPROVER_ensures(SYS_N(self) == OLD_N || lc_copy(SYS_AT(self, OLD_N), c))
+__CPROVER_ensures(TOP(sys_add, sys_okz(self, NC + 1, ZB)))
+__CPROVER_ensures(TOP(sys_add, !(sys_range_lemmas(self) && fm_range_lemmas(MAPP(c->f1))) || sys_holds(self) == (g_pre != 0 && LC_HOLDS(c))));
+void h_sys_add(void){ INSYS(S, n); IN(LC, c); IN(FM, c_m); IN(struct trarr, c_t); GHOST(unsigned char, nobuf); GHOSTG(unsigned char, g_pre);
+  c.f1.f0.f0.f0 = &c_m; FM_START(&c_m) = c_t.a; FM_CAP(&c_m) = NT; FIXVAR(&c_t.a[0].f0); RECORD(i128, c_v0, FM_VAL(&c_m, 0));
+#if NT >= 2
+  FIXVAR(&c_t.a[1].f0); RECORD(i128, c_v1, FM_VAL(&c_m, 1));
+#endif
+#if SYSN_FIX == 0
+  if (nobuf) { SYS_B(&S_s) = 0; SYS_E(&S_s) = 0; SYS_C(&S_s) = 0; }
+#endif
+  SYSN(pLERKNS_17linear_constraintIS1_S2_EE)(&S_s, &c);
+#if SYSN_FIX >= 1
+  SATGUARD(SYS_N(&S_s) == n && FM_SIZE(&c_m) == NT);    /* reachable: the constraint (with terms) is already there */
+#else
+  SATGUARD(nobuf); SATGUARD(!nobuf);
+#endif
+  SATGUARD(SYS_N(&S_s) == n + 1); REACH; }
+
+/* ---- normalize(): the result has the SAME SOLUTION SET: under every valuation the conjunction of the constraints of the
+ * result holds iff the conjunction of the constraints of the input holds; the result is well formed and has at most as
+ * many constraints.  (Evaluation of the negated expressions normalize builds needs (-c) * v = -(c * v) per input term.) */
+/* PARKED (not run in any tier; the line below is deliberately not a check line): with operator+=, operator-() and equal
+ * replaced by their contracts the run for 0 constraints passes (20 s); the runs for 1 and 2 constraints (35 s / 340 s) end
+ * with failed POINTER obligations inside the evaluation of the postcondition (spec.h var_ok reads FM_START(&S_m0) as
+ * NULL + 96 although the trace shows it assigned S_t0.a and never written again): a checker / encoding artefact of the same
+ * family as the one documented in lemodel.c at(), NOT a verdict about normalize.  With everything in line the symbolic
+ * execution does not finish (> 25 min for <=2 constraints of <=1 term). */
+//@check-parked id=sys_normalize fn=_ZNK4ikos24linear_constraint_systemINS_8z_numberE2VNE9normalizeEv props=C20 defs=LINCST_CONCRETE,NT=1,NC=2 replace=_ZNK4ikos17linear_expressionINS_8z_numberE2VNEngEv,_ZNK4ikos17linear_expressionINS_8z_numberE2VNE5equalERKS3_,_ZN4ikos24linear_constraint_systemINS_8z_numberE2VNEpLERKNS_17linear_constraintIS1_S2_EE vary=SYSN_FIX:0-2 unwind=4 bounded="<=2 constraints of <=1 term" timeout=900 first_timeout=600
+void SYSK(9normalizeEv)(SYS *ret, SYS *self)
+__CPROVER_requires(FRESH(sys_normalize, ret, sizeof(SYS)) && FRESH(sys_normalize, self, sizeof(SYS)) && sys_ok(self))
+__CPROVER_assigns(*ret)
+__CPROVER_ensures(sys_okz(ret, SYS_N(self), 2 * ZB))
+__CPROVER_ensures(!sys_neg_lemmas(self) || sys_holds(ret) == sys_holds(self));
+void h_sys_normalize(void){ INSYS(S, n); SYS r; SYSK(9normalizeEv)(&r, &S_s);
+#if SYSN_FIX >= 2
+  /* reachable: the pair e <= 0, -e <= 0 (with terms) merged into one equality; nothing merged */
+  SATGUARD(sys_neg_lemmas(&S_s) && SYS_N(&r) == n - 1 && SYS_AT(&r, 0)->f0 == K_EQ && S_c.a[0].f0 == K_LE && S_c.a[1].f0 == K_LE && FM_SIZE(&S_m0) == NT);
+  SATGUARD(sys_neg_lemmas(&S_s) && SYS_N(&r) == n && S_c.a[0].f0 == K_LE && S_c.a[1].f0 == K_LE && FM_SIZE(&S_m0) == NT && FM_SIZE(&S_m1) == NT);
+#endif
+  REACH; }
+
+/* ---- is_false(): a yes is never wrong (the conjunction then fails under every valuation) and the test is exact for
+ * systems of constant constraints; is_true(): a yes is never wrong */
+//@check id=sys_is_false fn=_ZNK4ikos24linear_constraint_systemINS_8z_numberE2VNE8is_falseEv props=C20 defs=LINCST_CONCRETE,NT=1,NC=2 vary=SYSN_FIX:0-2 unwind=5 bounded="<=2 constraints of <=1 term" timeout=600 first_timeout=400
+unsigned char SYSK(8is_falseEv)(SYS *self)
+__CPROVER_requires(FRESH(sys_is_false, self, sizeof(SYS)) && sys_ok(self))
+__CPROVER_assigns()
+__CPROVER_ensures(__CPROVER_return_value <= 1)
+__CPROVER_ensures(!sys_range_lemmas(self) || __CPROVER_return_value == 0 || !sys_holds(self))
+__CPROVER_ensures(!sys_all_const(self) || (__CPROVER_return_value != 0) == !sys_holds(self));
+void h_sys_is_false(void){ INSYS(S, n); unsigned char r = SYSK(8is_falseEv)(&S_s);
+#if SYSN_FIX >= 1
+  SATGUARD(r && FM_SIZE(&S_m0) == 0); SATGUARD(!r && sys_all_const(&S_s)); SATGUARD(!r && FM_SIZE(&S_m0) == NT);
+#endif
+  REACH; }
+//@check id=sys_is_true fn=_ZNK4ikos24linear_constraint_systemINS_8z_numberE2VNE7is_trueEv props=C20 defs=LINCST_CONCRETE,NT=1,NC=2 vary=SYSN_FIX:0-2 unwind=5 bounded="<=2 constraints of <=1 term" timeout=600 first_timeout=400
+unsigned char SYSK(7is_trueEv)(SYS *self)
+__CPROVER_requires(FRESH(sys_is_true, self, sizeof(SYS)) && sys_ok(self))
+__CPROVER_assigns()
+__CPROVER_ensures(__CPROVER_return_value <= 1)
+__CPROVER_ensures(!sys_range_lemmas(self) || __CPROVER_return_value == 0 || sys_holds(self));
+void h_sys_is_true(void){ INSYS(S, n); unsigned char r = SYSK(7is_trueEv)(&S_s); SATGUARD(r == (n == 0)); REACH; }
 #endif
